@@ -154,6 +154,16 @@ def run(prog: Program, rep: Report, tier: str):
             rep.analysed_add("functions", f"{d.module.relpath}:{d.qualname}")
             clears = {n for n, c in da.calls_named("clear") if da.sym.term(c.func.value, n) == cache}
             rebinds = [n for n, var, val in da.stores() if var == f"{da.self_name}.{cache_attr}"]
+
+            def _same_object(n_, val_):
+                # 'd = self.cache; ...; self.cache = d': the attribute is bound to the object it already holds
+                if val_ is None:
+                    return False
+                r_ = da.referent(val_, n_)
+                return isinstance(r_, ast.Attribute) and isinstance(r_.value, ast.Name) and r_.value.id == da.self_name \
+                    and r_.attr == cache_attr
+            rebinds = [n for n in rebinds if not any(_same_object(n, val) for n2, var, val in da.stores()
+                                                     if n2 == n and var == f"{da.self_name}.{cache_attr}")]
             if rebinds:
                 rep.bad("G8.dispose-clears", d, "rebind", f"dispose() binds self.{cache_attr} to a new container instead of "
                         f"emptying the shared one in place: every other holder of the cache (reader processes that received "
